@@ -257,7 +257,7 @@ class VerifyAttrs(object):
                     "'rank' attribute must have an integer value, not '{}'"
                     .format(attrs["rank"])
                 )
-            if attrs["rank"] > 7:
+            if attrs["rank"] < 0 or attrs["rank"] > 7:
                 raise RuntimeError(
                     "'rank' attribute must be 0-7, not '{}'"
                     .format(attrs["rank"])
